@@ -1007,7 +1007,54 @@ def own_schedcopy(ctx: Ctx) -> RuleResult:
     return r
 
 
+def own_wbcomplete(ctx: Ctx) -> RuleResult:
+    """A setup result is made permanent only if it was computed from all the inputs of the node.
+
+    A selection by root_nodes is the one selection that keeps a node without all its predecessors (the node then receives None
+    for them - the documented behaviour for that one run). If such a node is a setup node, its result must not be recorded in the
+    DAG instance: every later call would reuse a value computed from None."""
+    from .gt import graph_q
+    from ..ctx import arg_for_param
+
+    r = RuleResult("OWN-WBCOMPLETE")
+    g = ctx.P.classes[graph_q(ctx)]
+    ms = g.methods.get("make_subgraph")
+    r.require(ms is not None, "make_subgraph not found")
+    roots_used = []
+    for f in ctx.funcs():
+        if f.module.name.endswith("_twzsa_control") or f.cls is g:
+            continue
+        for call, q in ctx.calls_in(f):
+            if q == ms.qualname:
+                a = arg_for_param(ms.node, call, "root_nodes", skip_self=True)
+                if a is not None and not (isinstance(a, ast.Constant) and a.value is None):
+                    roots_used.append(f.short)
+    r.ob(True, {"selections by root_nodes are built in": sorted(set(roots_used))})
+    if not roots_used:
+        return r
+    # does the root selection itself keep the setup ancestors of what it selects?
+    keeps = any(isinstance(n, ast.Attribute) and n.attr in ("setup_nodes",) for n in iter_own_nodes(ms.node))
+    if keeps:
+        raise Undecided("make_subgraph mentions setup nodes: whether a root selection keeps setup ancestors is not modelled")
+    sites = [(f, n, ch) for f, n, ch in _writeback_sites(ctx)]
+    r.require(len(sites) >= 2, "write-back sites not found")
+    for f, n, ch in sites:
+        parts = []
+        for t, v in ch:
+            parts += [norm_src(x) for x in (t.values if isinstance(t, ast.BoolOp) and isinstance(t.op, ast.And) else [t])]
+        complete = any(any(k in p_ for k in (".dependencies", ".args", ".kwargs", "predecessors", "in_degree")) for p_ in parts)
+        r.ob(complete, {"write-back": norm_src(n), "in": f.short, "guard": " and ".join(parts), "tests the node's inputs": complete})
+        if not complete:
+            r.violate(f"{f.short}: a setup result computed in a root_nodes selection is recorded without a test that the node's "
+                      f"inputs were available", f.loc(n),
+                      "executor(root_nodes=[s1]) keeps the setup node build(s1, s2) but not s2: build runs with s2=None and that result "
+                      "is written into the DAG instance; every later call (and every executor) reuses it - the DAG no longer behaves "
+                      "like a freshly built one", " and ".join(parts))
+    return r
+
+
 RULES = {
+    "OWN-WBCOMPLETE": own_wbcomplete,
     "OWN-RUN": own_run, "OWN-WRITEBACK": own_writeback, "OWN-SETUP": own_setup, "OWN-CONSUME": own_consume, "OWN-ARGS": own_args,
     "OWN-GLOBAL": own_global, "OWN-STRICT": own_strict, "OWN-FORCE": own_force, "OWN-COMPOSE": own_compose,
     "OWN-DEEPCOPY": own_deepcopy, "OWN-SCHEDCOPY": own_schedcopy,
